@@ -124,6 +124,12 @@ pub fn gen_pkg_named(rng: &mut Rng, idx: usize, prefix: &str, pkg_name: &str) ->
           if rng.chance(1, 2) {
             members.push(Member::Prop { name: "hidden".into(), access: Access::Priv, is_static: false, readonly: false, ty: Some(ty_with(rng, &others, &mut body_refs)), init: None });
           }
+          if rng.chance(1, 3) {
+            members.push(Member::Prop { name: "sp".into(), access: Access::Pub, is_static: true, readonly: rng.chance(1, 2), ty: Some(ty_with(rng, &others, &mut refs)), init: None });
+          }
+          if rng.chance(1, 3) {
+            members.push(Member::Accessor { name: "acc".into(), access: *rng.pick(&[Access::Pub, Access::Prot]), is_static: rng.chance(1, 2), ty: Some(ty_with(rng, &others, &mut refs)), init: None });
+          }
           if rng.chance(1, 2) {
             let f = Fn {
               params: vec![Param { name: "a".into(), opt: false, rest: false, ty: Some(ty_with(rng, &others, &mut refs)), dflt: None }],
@@ -953,6 +959,15 @@ pub fn run_c11(tier: &str, seed: u64) -> Report {
         }
       } else if !got.is_subset(&want) {
         report.fail("oracle", "emitted-module-exports-name-not-in-source", format!("{}: {:?} not among {:?}", url, got.difference(&want).collect::<Vec<_>>(), want), c.replay.clone());
+      }
+      // public member signatures of retained classes
+      for (n, tok) in x.decl_tokens() {
+        if let Some(d) = f.items.iter().find_map(|it| match it {
+          Item::Decl(d) if d.name == n => Some(d),
+          _ => None,
+        }) {
+          crate::c10::member_signature_oracle(&mut report, &url, d, &tok, &c.replay);
+        }
       }
       // kinds and names of retained declarations
       let tl = x.top_level();
